@@ -178,19 +178,20 @@ static _Bool lit_below(const struct lit_info *o) { return !o->nonzero || o->p < 
 static _Bool lit_int_fits(const struct lit_info *o) {
   return o->is_integer && !o->big && (!o->neg || o->V <= ((uint64_t)1 << 63));
 }
-static long spec_ndigits(uint64_t m) { /* decimal digits of m > 0 */
+/* decimal digits of an integral m > 0 held in a double (every 10^j, j <= 19, is an exact double; comparisons only) */
+static long spec_ndigits(double m) {
+  static const double p10[20] = {1e0, 1e1, 1e2, 1e3, 1e4, 1e5, 1e6, 1e7, 1e8, 1e9, 1e10, 1e11, 1e12, 1e13, 1e14, 1e15, 1e16, 1e17, 1e18, 1e19};
   long n = 0;
-  for (int j = 1; j <= 20; j++) if (m >= g_lo[j]) n = j;
+  for (int j = 0; j < 20; j++) if (m >= p10[j]) n = j + 1;
   return n;
 }
-/* m * 10^e <= FLT_MAX = 3.4028234664e38 for an integer m < 2^24: every m * 10^31 is far inside; from 1e32 up
- * the value is a multiple of 1e32 and FLT_MAX / 1e32 = 3402823.46.. */
-static _Bool spec_fits_float(uint64_t m, int e) {
-  if (m == 0 || e <= 31) return 1;
+/* m * 10^e <= FLT_MAX = 3.4028234664e38 for an integer m < 2^24: every m * 10^31 is far inside; from 1e32 up the value is
+ * a multiple of 1e32 and FLT_MAX / 1e32 = 3402823.46..: m * 10^(e-32) <= 3402823, i.e. m <= floor(3402823 / 10^(e-32)) */
+static _Bool spec_fits_float(float m, int e) {
+  static const float thr[7] = {3402823.0f, 340282.0f, 34028.0f, 3402.0f, 340.0f, 34.0f, 3.0f};
+  if (m == 0.0f || e <= 31) return 1;
   if (e >= 39) return 0;
-  uint64_t k = m;
-  for (int i = 32; i < 38; i++) if (i < e) k *= 10; /* m < 2^24, at most six factors: no overflow */
-  return k <= 3402823u;
+  return m <= thr[e - 32];
 }
 
 /* ---- make_float stubs (CBMC build): record the call, check the callee's precondition ------------------------------- */
@@ -198,13 +199,13 @@ enum { CK_TABLE = 1, CK_MAG = 2, CK_FLOATFIT = 4, CK_ZERO_EXIT = 8, CK_INF_EXIT 
 static unsigned g_checks;
 static unsigned g_mf_calls;
 static _Bool g_mf_double;
-static uint64_t g_mf_m;
+static double g_mf_m; /* the mantissa handed over (a float widens exactly) */
 static int g_mf_e;
 #define MARK_D 3.0
 #define MARK_F 5.0f
 #ifdef CANARY_LIT
 #define CANARY_TABLE(e) ((e) != 7)
-#define CANARY_FIT(m, e) (!((m) == 77 && (e) == 0))
+#define CANARY_FIT(m, e) (!((m) == 77.0f && (e) == 0))
 #define CANARY_P(p) ((p) == 7)
 #define CANARY_EXIT(p) ((p) != 400 && (p) != -400)
 #else
@@ -218,9 +219,8 @@ double make_float_double_int(double m, int e) {
   g_mf_calls++;
   g_mf_double = 1;
   g_mf_e = e;
-  CHECK(m >= 0.0 && m < 0x1p53, "the mantissa handed to make_float<double> is a non-negative integer below 2^53 (exact)");
-  g_mf_m = (uint64_t)m;
-  CHECK((double)g_mf_m == m, "the mantissa handed to make_float<double> is integral");
+  g_mf_m = m;
+  CHECK(m >= 0.0 && m < 0x1p53, "the mantissa handed to make_float<double> is non-negative and below 2^53 (converted exactly)");
   if (g_checks & CK_TABLE)
     CHECK(e >= -511 && e <= 511 && CANARY_TABLE(e), "make_float<double> precondition: |e| <= 511, the nine-entry power-of-ten tables");
   return MARK_D;
@@ -229,15 +229,14 @@ float make_float_float_int(float m, int e) {
   g_mf_calls++;
   g_mf_double = 0;
   g_mf_e = e;
-  CHECK(m >= 0.0f && m < 0x1p24f, "the mantissa handed to make_float<float> is a non-negative integer below 2^24 (exact)");
-  g_mf_m = (uint64_t)m;
-  CHECK((float)g_mf_m == m, "the mantissa handed to make_float<float> is integral");
+  g_mf_m = (double)m;
+  CHECK(m >= 0.0f && m < 0x1p24f, "the mantissa handed to make_float<float> is non-negative and below 2^24 (converted exactly)");
   if (g_checks & CK_TABLE)
     CHECK(e >= -63 && e <= 63 && CANARY_TABLE(e), "make_float<float> precondition: |e| <= 63, the six-entry power-of-ten tables");
   if (g_checks & CK_FLOATFIT)
-    CHECK(spec_fits_float(g_mf_m, e) && CANARY_FIT(g_mf_m, e), "the float path is taken only when the value does not exceed FLT_MAX (a value <= 1e300 never becomes infinity)");
+    CHECK(spec_fits_float(m, e) && CANARY_FIT(m, e), "the float path is taken only when the value does not exceed FLT_MAX (a value <= 1e300 never becomes infinity)");
   if (g_checks & CK_MAG)
-    CHECK(g_mf_m == 0 || e >= -44, "the float path is taken only when the value is not below the smallest positive float (never +/-0 for a non-zero value)");
+    CHECK(m == 0.0f || e >= -44, "the float path is taken only when the value is not below the smallest positive float (never +/-0 for a non-zero value)");
   return MARK_F;
 }
 #endif
@@ -267,7 +266,7 @@ static void pn_input(struct pn_case *c) {
 static void pn_call(struct pn_case *c, unsigned checks) {
   g_checks = checks;
   g_mf_calls = 0;
-  g_mf_m = 0;
+  g_mf_m = 0.0;
   g_mf_e = 0;
   g_mf_double = 0;
   c->r = parseNumber(c->s);
@@ -310,8 +309,8 @@ static void pn_check_floating(struct pn_case *c, unsigned checks) {
                       : (t == NT_FLOAT && (c->r.value_.asFloat == MARK_F || c->r.value_.asFloat == -MARK_F)),
           "the value made by make_float is returned with the literal's sign applied and nothing else");
     if (checks & CK_MAG) {
-      CHECK((g_mf_m != 0) == li->nonzero, "the mantissa handed to make_float is zero exactly when the literal is zero");
-      if (g_mf_m != 0 && li->nonzero)
+      CHECK((g_mf_m != 0.0) == li->nonzero, "the mantissa handed to make_float is zero exactly when the literal is zero");
+      if (g_mf_m != 0.0 && li->nonzero)
         CHECK(spec_ndigits(g_mf_m) - 1 + (long)g_mf_e == li->p + CANARY_P(li->p),
               "mantissa x 10^exponent handed to make_float has the decimal magnitude of the literal (never a finite value of the wrong magnitude)");
     }
